@@ -164,7 +164,7 @@ Lemma C04_refuted_exact_size_headers_l :
                In w (wlog (st (fst (step s o)))) /\ ~ (fst w + snd w <= start e' \/ ext_end e' <= fst w).
 Proof. intros s o. split; [vm_compute; reflexivity|]. apply frame_b_false. vm_compute. reflexivity. Qed.
 
-(* link object headers allocated at exact size (/repo HEAD without notes/fixes/reserve-link-headers):
+(* link object headers allocated at exact size (/repo before fix 0d24a11):
    dataset x, soft link s, dataset b, hard link to s -- the link header with its new reference-count
    message runs into b's data extent *)
 Definition hist_link : list op := [OpMkContig 0 1 false 12 1 8; OpMkLink 0 1 false 14; OpMkContig 0 1 false 12 1 16].
